@@ -617,7 +617,8 @@ def _sqlite_real_fix(chk, m):
     n = 0
     for opname in ("horizontal_min", "horizontal_max", "min", "max"):
         for dt, want_real in ((DT("Float64"), True), (DT("Const", DT("Float64")), True), (DT("Int64"), False)):
-            fn = prog.new("tree.col_expr", "ColFn", op=getattr(ops, opname), args=[], context_kwargs={}, _dtype=dt, _ftype=None)
+            operands = [prog.new("tree.col_expr", "Col", name=nm_, _ast=None, _uuid=f"u{nm_}", _dtype=DT(t_), _ftype=None) for nm_, t_ in (("i", "Int64"), ("f", "Float64" if want_real else "Int64"))]
+            fn = prog.new("tree.col_expr", "ColFn", op=getattr(ops, opname), args=operands, context_kwargs={}, _dtype=dt, _ftype=None)
             args = [_ModuleNS({"type": "sqltype:INTEGER"}), _ModuleNS({"type": "sqltype:INTEGER"})]
             what = f"SqliteImpl.fix_fn_types({opname}: {dt!r}, INTEGER operands)"
             try:
@@ -626,7 +627,9 @@ def _sqlite_real_fix(chk, m):
                 chk.note(f"R8v: {what} not interpreted ({str(e)[:120]})")
                 continue
             except PyRaise as p_:
-                chk.ob("R8v", mod, f.node, what, False, f"{what} raises {p_.name}: {p_.msg}")
+                # the stubs model only what today's function consults; an exception on them is not a verdict (crashes are C19's)
+                chk.note(f"R8v: {what} raises {p_.name} on the stubs ({str(p_.msg)[:100]}): not decided")
+                n += 1
                 continue
             n += 1
             casts = [x for x in (r.walk() if isinstance(r, Term) else []) if x.fn.split(".")[-1].lower() == "cast" and len(x.args) >= 2]
@@ -717,7 +720,8 @@ def _polars_time_unit(chk, m):
             try:
                 prog.call(f.bind(o), ["t", frame(kind)])
             except PyRaise as p_:
-                chk.ob("R10v", mod, f.node, f"PolarsImpl.__init__ on a {kind} frame", False, f"PolarsImpl.__init__ on a {kind} frame raises {p_.name}: {p_.msg}")
+                # the frame stub has only the methods today's constructor uses: an exception on it is not a verdict
+                chk.note(f"R10v: PolarsImpl.__init__ on a {kind} frame stub raises {p_.name} ({str(p_.msg)[:100]}): not decided")
                 return
             df = o.attrs.get("df")
             if not (isinstance(df, Obj) and "__kind__" in df.attrs):
